@@ -82,9 +82,13 @@ TEXT = {'EQ': '==', 'NE': '!=', 'GT': '>', 'LT': '<', 'LTE': '<=', 'GTE': '>=', 
         'WHILE': 'while', 'BREAK': 'break', 'CONTINUE': 'continue', 'DEF': 'def', 'RAISE': 'raise',
         'ELIF': 'elif'}
 NAMES = ['a', 'b', 'c', 'f', 'g', 'x', 'y', 'k2', '_t', 'имя', '%user name%', '%a.b%', 'len', 'map',
-         'index', 'int', 'in_stock', 'notx', 'order', 'android', 'iffy', 'elsewhere', 'delta', 'Trueish', 'None_', 'forx', 'r', 'rr']
+         'index', 'int', 'in_stock', 'notx', 'order', 'android', 'iffy', 'elsewhere', 'delta', 'Trueish', 'None_', 'forx', 'r', 'rr',
+         # names that Unicode normalisation (NFC / NFKC) would rewrite, and a %...% name holding a form feed
+         '\u2126m', '\u212bx', '\uff58', '\u00b5', 'x\u00b2' if False else '\ufb01t', '%a\x0cb%']
 NUMBERS = ['1', '2.5', '0', '007', '10.50', '3', '12345678901234567890123456789.5']
-STRINGS = ['"s"', "'q'", 'r"\\d+"', '"a\\"b"', '""', "'x y'", '"%z%"', '"# no comment"', '"#fff"', '"#000"', "'n#1'", "'n#2'"]
+STRINGS = ['"s"', "'q'", 'r"\\d+"', '"a\\"b"', '""', "'x y'", '"%z%"', '"# no comment"', '"#fff"', '"#000"', "'n#1'", "'n#2'",
+           # literals spelled like keyword constants / numbers, and literals holding the characters str.splitlines() treats as line boundaries
+           '"True"', "'None'", '"False"', "'and'", '"12"', '"a\u2028b"', "'x\x0cy'", '"p\x85q"', '"u\x1cv\x0bw"', "'\u2029'"]
 SHORTS = ['+=', '-=', '*=', '/=']
 NEWLINES = [';', '\n', '\r\n']
 
